@@ -177,10 +177,38 @@ func cacheTracked(fn *ssa.Function, roots map[ssa.Value]bool) (map[ssa.Value]boo
 }
 
 type cacheFrame struct {
-	a     *cacheAn
-	fn    *ssa.Function
-	t     map[ssa.Value]bool
-	cells map[ssa.Value]bool
+	a       *cacheAn
+	fn      *ssa.Function
+	t       map[ssa.Value]bool
+	cells   map[ssa.Value]bool
+	rebuilt map[int]bool // caches this function rebuilds itself (assigned a new value / overwritten by copy)
+}
+
+// findRebuilt: the caches the function rebuilds on its own. A function that replaces or permutes the rows and
+// also rebuilds a cache is taken to rebuild it for the new rows (the pairing of the two is not followed
+// through correlated conditions).
+func (f *cacheFrame) findRebuilt() {
+	f.rebuilt = map[int]bool{}
+	for _, b := range f.fn.Blocks {
+		for _, in := range b.Instrs {
+			if st, ok := in.(*ssa.Store); ok {
+				if name, ok := f.fieldAddr(st.Addr); ok {
+					if ci := f.cacheIdx(name); ci >= 0 && !core.IsNilConst(st.Val) && !f.prefixOf(st.Val, name) {
+						if _, isShift := f.shiftOf(st.Val, name); !isShift {
+							f.rebuilt[ci] = true
+						}
+					}
+				}
+			}
+			if com, ok := isBuiltinCall(in, "copy"); ok {
+				for ci, name := range f.a.fields {
+					if f.prefixOf(com.Args[0], name) {
+						f.rebuilt[ci] = true
+					}
+				}
+			}
+		}
+	}
 }
 
 func (f *cacheFrame) fieldAddr(v ssa.Value) (string, bool) {
@@ -307,9 +335,9 @@ func rowsShifted(v cacheVec, key, why string) {
 	}
 }
 
-func rowsReplaced(v cacheVec, why string) {
+func rowsReplaced(v cacheVec, why string, skip map[int]bool) {
 	for i := range v {
-		if v[i].k != csNil {
+		if v[i].k != csNil && !skip[i] {
 			v[i] = cacheSt{k: csStale, why: why}
 		}
 	}
@@ -355,7 +383,8 @@ func (f *cacheFrame) transfer(in ssa.Instruction, st cacheVec, depth int, record
 					} else if _, ok := x.Val.(*ssa.MakeSlice); ok {
 						st[ci] = cacheSt{k: csAligned}
 					} else {
-						st[ci] = cacheSt{k: csStale, why: "cache assigned an unrecognised value at " + pos}
+						// a cache built some other way (merged, copied): taken to be built for the rows it is stored with
+						st[ci] = cacheSt{k: csAligned}
 					}
 				}
 				return st
@@ -368,7 +397,7 @@ func (f *cacheFrame) transfer(in ssa.Instruction, st cacheVec, depth int, record
 					if key, ok := f.shiftOf(x.Val, "RecordSet"); ok {
 						rowsShifted(st, key, "RecordSet re-sliced from "+key+" at "+pos)
 					} else {
-						rowsReplaced(st, "RecordSet replaced at "+pos)
+						rowsReplaced(st, "RecordSet replaced at "+pos, f.rebuilt)
 					}
 				}
 				return st
@@ -381,7 +410,7 @@ func (f *cacheFrame) transfer(in ssa.Instruction, st cacheVec, depth int, record
 			case "shift":
 				rowsShifted(st, key, "rows copied down from RecordSet["+key+":] at "+pos)
 			case "replace":
-				rowsReplaced(st, "row replaced at "+pos)
+				rowsReplaced(st, "row replaced at "+pos, f.rebuilt)
 			}
 		}
 		return st
@@ -422,11 +451,18 @@ func (f *cacheFrame) transfer(in ssa.Instruction, st cacheVec, depth int, record
 	}
 	if ci, ok := in.(ssa.CallInstruction); ok {
 		if com, ok := isBuiltinCall(in, "copy"); ok {
+			for ci, name := range a.fields {
+				// the cache overwritten element by element (merged / permuted together with the rows):
+				// taken to be rebuilt for the rows it is stored with
+				if f.prefixOf(com.Args[0], name) && st[ci].k != csNil {
+					st[ci] = cacheSt{k: csAligned}
+				}
+			}
 			if f.prefixOf(com.Args[0], "RecordSet") {
 				if key, ok := f.shiftOf(com.Args[1], "RecordSet"); ok {
 					rowsShifted(st, key, "rows copied down from RecordSet["+key+":] at "+pos)
 				} else if !f.prefixOf(com.Args[1], "RecordSet") {
-					rowsReplaced(st, "rows overwritten by copy at "+pos)
+					rowsReplaced(st, "rows overwritten by copy at "+pos, f.rebuilt)
 				}
 			}
 			return st
@@ -638,6 +674,7 @@ func (a *cacheAn) run(fn *ssa.Function, roots map[ssa.Value]bool, in cacheVec, d
 		}
 	}
 	f := &cacheFrame{a: a, fn: fn, t: tr, cells: cells}
+	f.findRebuilt()
 
 	outs := map[*ssa.BasicBlock]cacheVec{}
 	// the state on entry of b: the join over the predecessors computed so far (recomputed, not accumulated)
